@@ -700,3 +700,50 @@ def no_mutable_defaults(ctx, rule, prefixes, floor, why):
                     ctx.unk(rule, q, 'mutable default argument %s=%s is passed to %s' % (name, U(d), U(where)[:50]))
     if ctx.floor(rule, prefixes[0], n, floor, 'parameters in %s' % ', '.join(prefixes)) and not bad:
         ctx.ok(rule, prefixes[0], 'no mutable default argument is kept or changed in place (%d parameters)' % n)
+
+
+_LAZY_CALLS = ('map', 'filter', 'zip', 'iter', 'enumerate', 'reversed', 'csv.reader', 'itertools.chain', 'itertools.islice')
+
+
+def no_generator_reuse(ctx, rule, prefixes, floor, why):
+    """A generator (or any one-shot iterator) bound to a name yields each element once: a second loop over the same name sees only
+    what the first one left - nothing, when the first loop can run to its end.  Violation: a local bound once to a generator
+    expression / map / filter / zip / iter / enumerate that is the iterable of two or more loops (or comprehensions) of which the
+    first can be left normally (not only by break / return)."""
+    n = 0
+    bad = False
+    for rel, m in sorted(ctx.repo.modules.items()):
+        if not rel.startswith(tuple(prefixes)):
+            continue
+        for lname, fn in sorted(m.funcs.items()):
+            stores = stores_in(fn)
+            for nm, lst in stores.items():
+                defs = [v for s_, v in lst if v is not None]
+                if len(lst) != 1 or len(defs) != 1:
+                    continue
+                v = defs[0]
+                lazy = isinstance(v, ast.GeneratorExp) or (isinstance(v, ast.Call) and (call_name(v) or '') in _LAZY_CALLS)
+                if not lazy:
+                    continue
+                n += 1
+                loops = [x for x in walk_local(fn) if isinstance(x, ast.For) and isinstance(x.iter, ast.Name) and x.iter.id == nm]
+                comps = [g for x in walk_local(fn) if isinstance(x, (ast.ListComp, ast.SetComp, ast.DictComp, ast.GeneratorExp))
+                         for g in x.generators if isinstance(g.iter, ast.Name) and g.iter.id == nm]
+                if len(loops) + len(comps) < 2:
+                    continue
+                q = '%s::%s' % (rel, lname)
+                first = min(loops, key=lambda l: l.lineno) if loops else None
+                # can the first loop end by exhaustion?  (a loop whose body always leaves by break/return on its first pass cannot)
+                can_exhaust = True
+                if first is not None:
+                    from ..core import _ends_with_jump
+                    can_exhaust = not _ends_with_jump(first.body) or any(isinstance(b_, ast.Continue) for b_ in ast.walk(first))
+                if can_exhaust:
+                    bad = True
+                    ctx.bad(rule, q, 'one-shot iterator %s = %s is looped over %d times' % (nm, U(v)[:50], len(loops) + len(comps)),
+                            why, None, (loops + [None])[1] if len(loops) > 1 else (first or fn), firm=True)
+                else:
+                    bad = True
+                    ctx.unk(rule, q, 'one-shot iterator %s is consumed by several loops' % nm)
+    if ctx.floor(rule, prefixes[0], n, floor, 'names bound to one-shot iterators in %s' % ', '.join(prefixes)) and not bad:
+        ctx.ok(rule, prefixes[0], 'no one-shot iterator is looped over twice (%d bound)' % n)
